@@ -640,8 +640,17 @@ def _run_part1(scn, ch, log):
                 raise t.exception()
         else:
             sig = getattr(signal, scn.get("sig", "SIGTERM"))
-            st["handles"] = [loop.sim_call_later(scn["signal_at"] * TICK, loop.deliver_signal, sig),
-                             loop.sim_call_later(1.0, loop.deliver_signal, sig)]
+            def _deliver(sig=sig):
+                # a signal that lands while run_app is already cleaning up after a failed start-up is a second
+                # termination request (it cancels that cleanup); like double signals it is outside the quantifier
+                if any(k in ("setup_raise", "site_fail") for k, _i in events) and any(k == "exit" for k, _i in events):
+                    st["signal_during_failure_cleanup"] = True
+                elif not any(k in ("setup_raise", "site_fail", "exit") for k, _i in events):
+                    st["signal_before_failure"] = True
+                loop.deliver_signal(sig)
+
+            st["handles"] = [loop.sim_call_later(scn["signal_at"] * TICK, _deliver),
+                             loop.sim_call_later(1.0, _deliver)]
             loop.vt_cap, loop.step_cap = 30.0, 50_000
             _run_app_guarded(loop, app, st, shutdown_timeout=0.2)
             if "raised" in st:
@@ -671,9 +680,12 @@ def _run_part1(scn, ch, log):
         rep = _reported(raised, loop, cap)
         rep |= {(i, "setup") for k, i in events if k == "setup_cancelled"}
         # run_app only: the signal arrived while start-up was still running / in the iteration it failed in
-        raced = entry == "run_app" and loop.faults.get("signal", 0) > 0 and not any(k == "exit" for k, _i in events) \
+        raced = entry == "run_app" and loop.faults.get("signal", 0) > 0 \
+            and (st.get("signal_before_failure") or not any(k == "exit" for k, _i in events)) \
             and any(k in ("setup_raise", "setup_cancelled") for k, _i in events)
         for v in L.judge(scn["app"], jev, entry=entry, reported=rep, strict_cross_app=STRICT_CROSS_APP_ORDER):
+            if st.get("signal_during_failure_cleanup"):
+                continue
             if cancelled:
                 v = dict(v, key=v["key"].replace("startup_failed", "startup_cancelled"))
             if raced and v["invariant"] == "errors_reported":
